@@ -9,8 +9,8 @@ MB = 'server::streaming::batching::message_batch::RetainedMessageBatch'
 
 CMP_PARTITION = {
     P + '::filter_segments_by_offsets': ['(segment.start_offset <= end_offset)', '(segment.start_offset <= start_offset)'],
-    P + '::get_end_offset': ['([T]::last(self.segments).current_offset < phi{((count - 1) + offset) | [T]::last(self.segments).current_offset})'],   # clamp to the last offset
-    P + '::get_last_messages': ['((1 + self.current_offset) < phi{(1 + self.current_offset) | count})'],            # count clamped to current_offset + 1
+    P + '::get_end_offset': ['([T]::last(self.segments).current_offset < ((count - 1) + offset))'],   # clamp to the last offset
+    P + '::get_last_messages': ['((1 + self.current_offset) < count)'],            # count clamped to current_offset + 1
     P + '::get_messages_by_offset': ['(self.current_offset < start_offset)'],                                         # beyond the end -> empty
     P + '::get_next_messages': ['re:^\\(DashMap::get\\(phi\\{self\\.consumer_group_offsets \\| self\\.consumer_offsets\\}, .*\\)\\.offset == self\\.current_offset\\)$'],
     P + '::load_messages_from_cache': ['(end_offset < start_offset)'],
@@ -24,7 +24,7 @@ CMP_SEGMENT = {
         '(0 == count)',
         '(BatchAccumulator::batch_base_offset(self.unsaved_messages) <= phi{offset | self.start_offset})',                  # buffer-only needs offset >= first
         '(phi{offset | self.start_offset} < BatchAccumulator::batch_base_offset(self.unsaved_messages))',                   # mixed: disk part exists
-        '(phi{offset | self.start_offset} < self.start_offset)',                                                            # clamp to segment start
+        '(offset < self.start_offset)',                                                            # clamp to segment start
     ],
     S + '::load_messages_from_disk': ['(end_offset < start_offset)'],
     S + '::load_messages_from_segment_file': ['(msg.offset <= end_offset)', '(start_offset <= msg.offset)'],                # per-message filter by absolute offset
